@@ -365,6 +365,25 @@ def _ed_script_difflib(old, new):
     return out
 
 
+def _ed_script_split(old, new):
+    """a valid ed script in which every change is a deletion followed by an append at the same place, and multi-line
+    deletions are single-line deletions: consecutive commands touch each other (adjacent, never overlapping)"""
+    import difflib
+    sm = difflib.SequenceMatcher(a=old, b=new, autojunk=False)
+    out = []
+    for tag, i1, i2, j1, j2 in reversed(sm.get_opcodes()):
+        if tag == "equal":
+            continue
+        if tag in ("delete", "replace"):
+            for k in range(i2, i1, -1):
+                out.append("%dd\n" % k)
+        if tag in ("insert", "replace"):
+            out.append("%da\n" % i1)
+            out.extend(new[j1:j2])
+            out.append(".\n")
+    return out
+
+
 def _ed_script_diff(old, new, tmpdir):
     a, b = os.path.join(tmpdir, "a"), os.path.join(tmpdir, "b")
     open(a, "w").write("".join(old))
@@ -410,6 +429,8 @@ def bounded_ed(ctx):
             pairs = rng.sample(pairs, 4000 if ctx.tier == "quick" else 60000)
         for k, (old, new) in enumerate(pairs):
             scripts = [("difflib", _ed_script_difflib(old, new))]
+            if k % 3 == 0:
+                scripts.append(("difflib, deletions and appends as separate adjacent commands", _ed_script_split(old, new)))
             if have_diff and k % (8 if ctx.tier == "quick" else 3) == 0:
                 s = _ed_script_diff(old, new, tmp)
                 if s is not None:
@@ -466,7 +487,7 @@ def run_bounded(ctx):
     ev, nt, samples, fail = bounded_ed(ctx)
     ctx.bounded("B-18 ed scripts from difflib and `diff -e` applied to (old, new) pairs; corrupted commands",
                 ev, len(nt), "line lists over {x, y, '. ', '..', '2a', ' .', '.<tab>'} (lines that look like terminators or "
-                "commands included); scripts derived independently by difflib opcodes and by diff -e; str and bytes; patches streamed "
+                "commands included); scripts derived independently by difflib opcodes (also with every change split into adjacent single-line deletions and an append) and by diff -e; str and bytes; patches streamed "
                 "into patch_lines or collected in a list first (alternating); "
                 "each script also with one command corrupted / last block unterminated / explicit '' (ValueError "
                 "expected); non-trivial = distinct non-empty (script, str|bytes)",
